@@ -1418,6 +1418,13 @@ Proof.
 Qed.
 End Consume.
 
+Lemma hc_full_fails_clean hash cap g progs s t i o : Reach hash cap g progs s -> event s t i o RFull ->
+  ~ In (t, i) (consumed s) /\ is_find o = false /\
+  exists t0, nth_error (tabs s) 0 = Some t0 /\ tab_passed hash t0 (okey o).
+Proof.
+  intros R E. split; [exact (hc_full_no_consume hash cap g progs s t i o R E)|exact (hc_full_fails hash cap g progs s t i o R E)].
+Qed.
+
 (* ================= non-vacuity ================= *)
 Lemma reach_run hash cap g progs sch : Reach hash cap g progs (Machine.run st (step hash) (init cap g progs) sch).
 Proof. exists sch. reflexivity. Qed.
